@@ -61,7 +61,7 @@ func (h H) openStorageRebuild(rule string) {
 	for _, fld := range []string{"raft:Configs.Latest", "raft:Configs.Committed"} {
 		for _, s := range h.storesIn(fn, fld) {
 			v := fi.Sym(storeVal(s.Instr)).String()
-			if !strings.HasSuffix(v, "meta.config") {
+			if !strings.HasSuffix(v, "meta.config") && !(strings.HasPrefix(v, "(*snapshots).meta(") && strings.HasSuffix(v, ".config")) {
 				h.C.Check(rule+" fallback-source", "openStorage store "+fld[5:], false, h.pos(s.Instr), "configuration fallback must be the snapshot's configuration; found "+v)
 				continue
 			}
@@ -85,13 +85,15 @@ func (h H) openStorageRebuild(rule string) {
 		h.C.Check(rule+" last-index-source", "openStorage store lastLogIndex := "+v, ok, h.pos(s.Instr), "lastLogIndex must be rebuilt from the snapshot or the last log entry")
 		if strings.HasPrefix(v, "new:entry") {
 			e, _ := entryOf(v, "index")
-			h.gate(rule+" last-entry-position", "openStorage store lastLogIndex := "+v, s.Instr, core.MkAtom(e+".index", "==", "(*log.Log).LastIndex(local:s.log)"))
+			// the storage object being built: whatever the store's address is rooted in
+			stg := strings.TrimSuffix(fi.Sym(s.Instr.(*ssa.Store).Addr).String(), ".lastLogIndex")
+			h.gate(rule+" last-entry-position", "openStorage store lastLogIndex := "+v, s.Instr, core.MkAtom(e+".index", "==", "(*log.Log).LastIndex("+stg+".log)"))
 			// the log may end before the snapshot (crash between publishing a snapshot and discarding the log it
 			// replaces): its last entry must not be taken as the node's last index then
 			reset := h.fn("log:(*Log).Reset")
 			r := fi.MustCrossOrPass(s.Instr, func(a core.Atom) bool {
-				for _, f := range snapIndexForms("local:s") {
-					for _, l := range []string{"(*log.Log).LastIndex(local:s.log)", e + ".index"} {
+				for _, f := range snapIndexForms(stg) {
+					for _, l := range []string{"(*log.Log).LastIndex(" + stg + ".log)", e + ".index"} {
 						if a.Implies(core.MkAtom(l, ">=", f)) {
 							return true
 						}
